@@ -2,9 +2,10 @@
    into the report files / onto standard output is the render model, all of
    it and nothing else, in an order that depends on the sorted security names
    only. *)
-From Coq Require Import List NArith ZArith Bool Lia Permutation Sorting.Sorted.
-From ACB Require Import Base.Outcome Model.CsvFields Model.Tx Model.DeltaList Model.Render Model.Output
-     Proofs.CsvDigits Proofs.SortPerm.
+From Coq Require Import List NArith ZArith QArith Qcanon Bool Lia Permutation Sorting.Sorted.
+From ACB Require Import Base.Outcome Base.Arith Model.CsvFields Model.Tx Model.DeltaList Model.App Model.Gains
+     Model.Render Model.Output Proofs.Tactics Proofs.CsvDigits Proofs.SortPerm Proofs.Layout Proofs.C16App
+     Proofs.RenderProps.
 Import ListNotations.
 Local Open Scope N_scope.
 
@@ -532,4 +533,331 @@ Proof.
     destruct (last_write fn (calls r)) eqn:El; [reflexivity|]. apply last_write_none in El. contradiction.
   - intros fn Hnot. rewrite Hc, Hc0. unfold file_content. rewrite <- calls_files in Hnot.
     apply last_write_none in Hnot. rewrite Hnot. split; reflexivity.
+Qed.
+
+(* ================================================================ E. text mode *)
+Definition section_of (c : call) : section := text_section (fst (fst c)) (snd (fst c)) (snd c).
+Definition has_columns (c : call) : Prop := rt_header (call_table c) <> [].
+
+Lemma text_run_sections cs : forall w w',
+  run_calls print_text w cs = (w', None) -> w' = w ++ map section_of cs /\ Forall has_columns cs.
+Proof.
+  induction cs as [|[[ot name] t] cs IH]; intros w w' H; cbn [run_calls] in H.
+  - inversion H. rewrite app_nil_r. split; [reflexivity|constructor].
+  - unfold print_text in H. destruct (rt_header t) as [|h0 hr] eqn:Eh; cbn [length Nat.eqb] in H; [discriminate|].
+    destruct (IH _ _ H) as [-> Hall]. split.
+    + rewrite <- app_assoc. reflexivity.
+    + constructor; [unfold has_columns, call_table; cbn [snd]; rewrite Eh; discriminate|exact Hall].
+Qed.
+
+Lemma text_run_succeeds cs : forall w, Forall has_columns cs -> run_calls print_text w cs = (w ++ map section_of cs, None).
+Proof.
+  induction cs as [|[[ot name] t] cs IH]; intros w Hall; cbn [run_calls map].
+  - rewrite app_nil_r. reflexivity.
+  - inversion Hall as [|? ? Hc Hrest]; subst. unfold has_columns, call_table in Hc. cbn [snd] in Hc.
+    unfold print_text. destruct (rt_header t) as [|h0 hr] eqn:Eh; [contradiction|]. cbn [length Nat.eqb].
+    rewrite (IH _ Hrest). rewrite <- app_assoc. reflexivity.
+Qed.
+
+(* C06: the sections of the text report are the tables of the render model, in the order of the prints *)
+Theorem text_sections_are_render_model r :
+  ro_fail (text_output r) = None ->
+  ro_state (text_output r) = map section_of (calls r) /\
+  ro_errsecs (text_output r) = errsecs_of r /\
+  text_stdout r = flat_map section_items (map section_of (calls r)) ++ closing_items (errsecs_of r).
+Proof.
+  intros Hf. destruct (write_render_result_spec (list section) print_text [] r) as [H1 H2].
+  fold (text_output r) in H1, H2. rewrite Hf in H1. symmetry in H1.
+  destruct (text_run_sections _ _ _ H1) as [Hs _]. cbn [app] in Hs.
+  split; [exact Hs|]. split; [exact (H2 Hf)|].
+  unfold text_stdout, closing_of. rewrite Hf, Hs, (H2 Hf). reflexivity.
+Qed.
+
+Theorem text_output_succeeds r :
+  Forall has_columns (calls r) <-> ro_fail (text_output r) = None.
+Proof.
+  destruct (write_render_result_spec (list section) print_text [] r) as [H1 _]. fold (text_output r) in H1.
+  split.
+  - intros Hall. rewrite (text_run_succeeds _ [] Hall) in H1. inversion H1. reflexivity.
+  - intros Hf. rewrite Hf in H1. symmetry in H1. apply text_run_sections in H1. tauto.
+Qed.
+
+Lemma sec_call_in r s t :
+  NoDup (map fst (ar_secs r)) -> In (s, t) (ar_secs r) -> In (OTransactions, s, t) (calls r).
+Proof.
+  intros Hn Hin. unfold calls. apply in_or_app. left. unfold sec_calls. apply in_flat_map.
+  exists s. split; [apply bsort_in; apply in_map_iff; exists (s, t); auto|].
+  rewrite (blookup_in s t _ Hn Hin). left. reflexivity.
+Qed.
+
+(* ================================================================ F. the closing list *)
+Lemma StronglySorted_filter {X} (R : X -> X -> Prop) (f : X -> bool) l :
+  StronglySorted R l -> StronglySorted R (filter f l).
+Proof.
+  induction 1 as [|a l Hs IH Hall]; cbn [filter]; [constructor|].
+  destruct (f a); [|exact IH]. constructor; [exact IH|].
+  apply Forall_forall. intros x Hx. apply filter_In in Hx as [Hx _]. rewrite Forall_forall in Hall. auto.
+Qed.
+
+Theorem closing_list_spec r :
+  NoDup (map fst (ar_secs r)) ->
+  StronglySorted bytes_le (errsecs_of r) /\ NoDup (errsecs_of r) /\
+  forall s, In s (errsecs_of r) <-> exists t, In (s, t) (ar_secs r) /\ rt_errors t <> [].
+Proof.
+  intros Hn. unfold errsecs_of. split; [apply StronglySorted_filter, bsort_sorted|].
+  split; [apply NoDup_filter, bsort_nodup; exact Hn|].
+  intros s. rewrite filter_In, bsort_in. unfold has_errors. split.
+  - intros [Hin Hb]. destruct (blookup s (ar_secs r)) as [t|] eqn:E; [|discriminate].
+    exists t. split; [apply blookup_some; exact E|]. destruct (rt_errors t); [discriminate|discriminate].
+  - intros [t [Hin Hne]]. split; [apply in_map_iff; exists (s, t); auto|].
+    rewrite (blookup_in s t _ Hn Hin). destruct (rt_errors t); [contradiction|reflexivity].
+Qed.
+
+Theorem closing_line_every_mode r :
+  (forall d0, ro_fail (csv_dir_output d0 r) = None -> csv_dir_stdout d0 r = closing_items (errsecs_of r)) /\
+  (ro_fail (text_output r) = None ->
+     exists body, text_stdout r = body ++ closing_items (errsecs_of r)).
+Proof.
+  split.
+  - intros d0 Hf. unfold csv_dir_stdout, closing_of. rewrite Hf.
+    destruct (write_render_result_spec dir print_csv_dir d0 r) as [_ H2]. fold (csv_dir_output d0 r) in H2.
+    rewrite (H2 Hf). reflexivity.
+  - intros Hf. destruct (text_sections_are_render_model r Hf) as (_ & _ & H). eexists. exact H.
+Qed.
+
+(* ================================================================ G. the order of the map does not matter (C09) *)
+Lemma write_secs_ext W print tabs tabs' names : forall w errs,
+  (forall s, blookup s tabs = blookup s tabs') ->
+  write_secs W print tabs names w errs = write_secs W print tabs' names w errs.
+Proof.
+  induction names as [|s l IH]; intros w errs Hext; cbn [write_secs]; [reflexivity|].
+  rewrite <- (Hext s). destruct (blookup s tabs) as [t|]; [|reflexivity].
+  destruct (print w OTransactions s t) as [w' [e|]]; [reflexivity|]. apply IH. exact Hext.
+Qed.
+
+Theorem output_order_independent W (print : W -> out_type -> bytes -> rtable -> W * option fail) w0 r r' :
+  NoDup (map fst (ar_secs r)) -> Permutation (ar_secs r) (ar_secs r') ->
+  ar_agg r = ar_agg r' -> ar_costs r = ar_costs r' ->
+  write_render_result print w0 r = write_render_result print w0 r'.
+Proof.
+  intros Hn Hp Ha Hc. unfold write_render_result. rewrite <- Ha, <- Hc.
+  rewrite (bsort_perm_eq (map fst (ar_secs r)) (map fst (ar_secs r'))) by (apply Permutation_map; exact Hp).
+  rewrite (write_secs_ext W print (ar_secs r) (ar_secs r')); [reflexivity|].
+  intros s. apply blookup_perm; assumption.
+Qed.
+
+Lemma write_log_perm r r' :
+  Permutation (ar_secs r) (ar_secs r') -> ar_costs r = ar_costs r' -> write_log r = write_log r'.
+Proof.
+  intros Hp Hc. unfold write_log. rewrite <- Hc.
+  rewrite (bsort_perm_eq (map fst (ar_secs r)) (map fst (ar_secs r'))) by (apply Permutation_map; exact Hp).
+  reflexivity.
+Qed.
+
+(* ================================================================ H. errors in every mode (C04) *)
+Theorem error_visible_every_mode r s t e :
+  NoDup (map fst (ar_secs r)) -> In (s, t) (ar_secs r) -> In e (rt_errors t) ->
+  (* the render model *)
+  (blookup s (ar_secs r) = Some t /\ In e (rt_errors t)) /\
+  (* --csv-output-dir *)
+  (forall d0, ro_fail (csv_dir_output d0 r) = None -> ~ In (file_name OTransactions s) (tail_files r) ->
+     exists recs, blookup (file_name OTransactions s) (ro_state (csv_dir_output d0 r)) = Some (EFile recs) /\
+                  In (pad_record (length (rt_header t)) (lit s_bang ++ e)) recs) /\
+  (* text *)
+  (ro_fail (text_output r) = None ->
+     In (text_section OTransactions s t) (ro_state (text_output r)) /\
+     In e (sc_errors (text_section OTransactions s t)) /\
+     sc_title (text_section OTransactions s t) = [PLit s_transactions_for; PLit s] /\
+     In (TLine (lit s_bang ++ e)) (text_stdout r)) /\
+  (* the closing list *)
+  In s (errsecs_of r).
+Proof.
+  intros Hn Hin He. split; [split; [apply blookup_in; assumption|exact He]|]. split; [|split].
+  - intros d0 Hf Hnr. destruct (csv_dir_is_render_model d0 r Hn Hf) as [H1 _].
+    exists (table_records t). split; [apply H1; assumption|].
+    unfold table_records. right. apply in_or_app. right. apply in_or_app. right.
+    apply in_map_iff. exists e. split; [reflexivity|exact He].
+  - intros Hf. destruct (text_sections_are_render_model r Hf) as (Hs & _ & Hout).
+    assert (Hsec : In (text_section OTransactions s t) (map section_of (calls r))).
+    { apply in_map_iff. exists (OTransactions, s, t). split; [reflexivity|apply sec_call_in; assumption]. }
+    split; [rewrite Hs; exact Hsec|]. split; [exact He|]. split; [reflexivity|].
+    rewrite Hout. apply in_or_app. left. apply in_flat_map. exists (text_section OTransactions s t).
+    split; [exact Hsec|]. unfold section_items. apply in_or_app. left.
+    apply in_map_iff. exists e. split; [reflexivity|exact He].
+  - apply (closing_list_spec r Hn). exists t. split; [exact Hin|]. intros E. rewrite E in He. contradiction.
+Qed.
+
+(* ================================================================ I. the whole pipeline: render_app, then the writers *)
+Lemma render_app_secs A full cur inits rows rep :
+  render_app A full cur inits rows = Ok rep ->
+  map (fun x => fst (fst x)) (rp_tables rep) = securities (sort_txs rows).
+Proof.
+  unfold render_app, run_app. rewrite run_secs_spec. cbn [bind]. intros H.
+  apply render_results_spec in H as [HF _].
+  remember (map (fun s => (s, sec_result_of A (init_for inits s) (txs_of_sec s (sort_txs rows))))
+                (securities (sort_txs rows))) as secs eqn:Es.
+  assert (Hm : map fst secs = securities (sort_txs rows)).
+  { subst secs. rewrite map_map. cbn [fst]. apply map_id. }
+  rewrite <- Hm. clear Es Hm.
+  induction HF as [|x y l tabs Hxy HF IH]; [reflexivity|]. cbn [map]. f_equal; [|exact IH].
+  destruct Hxy as [H1 _]. exact H1.
+Qed.
+
+Lemma sorted_lt_nodup l : StronglySorted N.lt l -> NoDup l.
+Proof.
+  induction 1 as [|a l Hs IH Hall]; constructor; [|exact IH].
+  intros Hin. rewrite Forall_forall in Hall. apply Hall in Hin. lia.
+Qed.
+
+Lemma app_of_report_keys secname errmsg costs rep :
+  map fst (ar_secs (app_of_report secname errmsg costs rep))
+  = map secname (map (fun x => fst (fst x)) (rp_tables rep)).
+Proof. unfold app_of_report. cbn [ar_secs]. rewrite !map_map. reflexivity. Qed.
+
+Lemma app_of_report_nodup A full cur inits rows rep secname errmsg costs :
+  (forall a b, secname a = secname b -> a = b) ->
+  render_app A full cur inits rows = Ok rep ->
+  NoDup (map fst (ar_secs (app_of_report secname errmsg costs rep))).
+Proof.
+  intros Hinj H. rewrite app_of_report_keys, (render_app_secs _ _ _ _ _ _ H).
+  apply FinFun.Injective_map_NoDup; [exact Hinj|]. apply sorted_lt_nodup, securities_sorted.
+Qed.
+
+(* every table the pipeline hands to the writers has as many fields in every
+   row and in the footer as in its header: the csv writer accepts it *)
+Lemma rtable_of_table_rect A full cur ds g tb errs :
+  render_table A full cur ds g = Ok tb -> rectangular (rtable_of_table tb errs).
+Proof.
+  intros H. apply render_table_rows in H as [HF _]. unfold rectangular, rtable_of_table.
+  cbn [rt_header rt_rows rt_footer rt_notes rt_errors]. repeat split.
+  - apply Forall_forall. intros rec Hin. apply in_map_iff in Hin as [row [<- Hrow]].
+    rewrite map_length. change (length tx_header) with 16%nat.
+    clear -HF Hrow. induction HF as [|d r ds0 rows0 H0 HF IH]; [contradiction|].
+    destruct Hrow as [<-|Hrow]; [eapply row_has_16_cells; exact H0|auto].
+  - right. reflexivity.
+  - left. discriminate.
+Qed.
+
+Lemma rtable_of_aggregate_rect l : rectangular (rtable_of_aggregate l).
+Proof.
+  unfold rectangular, rtable_of_aggregate. cbn [rt_header rt_rows rt_footer rt_notes rt_errors]. repeat split.
+  - apply Forall_forall. intros rec Hin. apply in_map_iff in Hin as [x [<- _]]. reflexivity.
+  - left; reflexivity.
+  - left; discriminate.
+Qed.
+
+Definition costs_rect (costs : option (rtable * rtable)) : Prop :=
+  match costs with Some (a, b) => rectangular a /\ rectangular b | None => True end.
+
+Theorem pipeline_tables_rectangular A full cur inits rows rep secname errmsg costs :
+  render_app A full cur inits rows = Ok rep -> costs_rect costs ->
+  Forall (fun c => rectangular (call_table c)) (calls (app_of_report secname errmsg costs rep)).
+Proof.
+  unfold render_app. intros H Hc. bind_as H as secs Es.
+  apply render_results_spec in H as [HF _].
+  unfold calls. apply Forall_app. split.
+  - apply Forall_forall. intros c Hin. unfold sec_calls in Hin. apply in_flat_map in Hin as [s [_ Hc']].
+    destruct (blookup s (ar_secs (app_of_report secname errmsg costs rep))) as [t|] eqn:E; [|contradiction].
+    destruct Hc' as [<-|[]]. unfold call_table. cbn [snd]. apply blookup_some in E.
+    unfold app_of_report in E. cbn [ar_secs] in E. apply in_map_iff in E as [y [Ey Hy]].
+    inversion Ey; subst. clear Ey.
+    assert (Hex : exists x, sec_table_rel A full cur x y).
+    { clear -HF Hy. induction HF as [|x0 y0 l tabs Hxy HF IH]; [contradiction|].
+      destruct Hy as [<-|Hy]; [exists x0; exact Hxy|auto]. }
+    destruct Hex as [x (_ & _ & Hr)]. destruct (snd (snd x)).
+    + eapply rtable_of_table_rect. exact Hr.
+    + destruct Hr as [g [_ Hr]]. eapply rtable_of_table_rect. exact Hr.
+  - unfold tail_calls, app_of_report. cbn [ar_agg ar_costs]. constructor; [apply rtable_of_aggregate_rect|].
+    destruct costs as [[a b]|]; [|constructor]. destruct Hc as [Ha Hb].
+    constructor; [exact Ha|]. constructor; [exact Hb|constructor].
+Qed.
+
+(* hence both writers succeed on every report of the pipeline (text: every
+   header has columns; --csv-output-dir: into a directory without blocked
+   names) *)
+Theorem pipeline_writers_succeed A full cur inits rows rep secname errmsg costs d0 :
+  render_app A full cur inits rows = Ok rep -> costs_rect costs ->
+  match costs with Some (a, b) => rt_header a <> [] /\ rt_header b <> [] | None => True end ->
+  no_blocked d0 ->
+  ro_fail (csv_dir_output d0 (app_of_report secname errmsg costs rep)) = None /\
+  ro_fail (text_output (app_of_report secname errmsg costs rep)) = None.
+Proof.
+  intros H Hc Hh Hnb. set (r := app_of_report secname errmsg costs rep).
+  pose proof (pipeline_tables_rectangular _ _ _ _ _ _ secname errmsg costs H Hc) as Hrect. fold r in Hrect.
+  split.
+  - destruct (write_render_result_spec dir print_csv_dir d0 r) as [H1 _]. fold (csv_dir_output d0 r) in H1.
+    destruct (csv_run_succeeds (calls r) d0 Hnb) as [d Hd].
+    { eapply Forall_impl; [|exact Hrect]. intros c Hr. exists (table_records (call_table c)).
+      apply csv_table_records_rect. exact Hr. }
+    rewrite Hd in H1. inversion H1. reflexivity.
+  - apply text_output_succeeds. unfold calls. apply Forall_app. split.
+    + apply Forall_forall. intros c Hin. unfold sec_calls in Hin. apply in_flat_map in Hin as [s [_ Hc']].
+      destruct (blookup s (ar_secs r)) as [t|] eqn:E; [|contradiction]. destruct Hc' as [<-|[]].
+      apply blookup_some in E. unfold r, app_of_report in E. cbn [ar_secs] in E.
+      apply in_map_iff in E as [y [Ey _]]. inversion Ey. unfold has_columns, call_table. cbn [snd rt_header rtable_of_table].
+      discriminate.
+    + unfold tail_calls, r, app_of_report. cbn [ar_agg ar_costs].
+      constructor; [unfold has_columns, call_table; cbn; discriminate|].
+      destruct costs as [[a b]|]; [|constructor]. destruct Hh as [Ha Hb].
+      constructor; [exact Ha|]. constructor; [exact Hb|constructor].
+Qed.
+
+(* C04 for the pipeline: the message of a rejected security is in the render
+   model, in its file, in its text section, and its name in the closing list *)
+Theorem pipeline_error_visible A full cur inits rows rep secname errmsg costs s e tb :
+  (forall a b, secname a = secname b -> a = b) ->
+  render_app A full cur inits rows = Ok rep ->
+  In (s, Some (SRej e), tb) (rp_tables rep) ->
+  let r := app_of_report secname errmsg costs rep in
+  let t := rtable_of_table tb [errmsg s] in
+  In (secname s, t) (ar_secs r) /\ rt_errors t = [errmsg s] /\
+  (forall d0, ro_fail (csv_dir_output d0 r) = None -> ~ In (file_name OTransactions (secname s)) (tail_files r) ->
+     exists recs, blookup (file_name OTransactions (secname s)) (ro_state (csv_dir_output d0 r)) = Some (EFile recs) /\
+                  In (pad_record 16 (lit s_bang ++ errmsg s)) recs) /\
+  (ro_fail (text_output r) = None ->
+     In (text_section OTransactions (secname s) t) (ro_state (text_output r)) /\
+     In (TLine (lit s_bang ++ errmsg s)) (text_stdout r)) /\
+  In (secname s) (errsecs_of r).
+Proof.
+  intros Hinj H Hin. cbv zeta.
+  set (r := app_of_report secname errmsg costs rep). set (t := rtable_of_table tb [errmsg s]).
+  assert (Hn : NoDup (map fst (ar_secs r))) by (eapply app_of_report_nodup; eauto).
+  assert (Ht : In (secname s, t) (ar_secs r)).
+  { unfold r, app_of_report. cbn [ar_secs]. apply in_map_iff. exists (s, Some (SRej e), tb). split; [reflexivity|exact Hin]. }
+  assert (He : In (errmsg s) (rt_errors t)) by (left; reflexivity).
+  destruct (error_visible_every_mode r (secname s) t (errmsg s) Hn Ht He) as (_ & H2 & H3 & H4).
+  split; [exact Ht|]. split; [reflexivity|]. split; [exact H2|]. split; [|exact H4].
+  intros Hf. destruct (H3 Hf) as (A1 & _ & _ & A4). split; assumption.
+Qed.
+
+(* C04: a rejected security is left out of every total.  Exact arithmetic: its
+   own table shows "Total" / "$0" and no year; the aggregate table renders
+   the aggregate of the gains of the error-free securities only. *)
+Theorem pipeline_rejected_no_totals full cur inits rows rep :
+  render_app exact full cur inits rows = Ok rep ->
+  (forall s st tb, In (s, Some st, tb) (rp_tables rep) ->
+     tb_labels tb = [LTotal] /\ tb_values tb = [pm_value full 0%Qc false] /\
+     footer_cells tb = repeat [] 8 ++ [[PLit s_total]; pm_pieces (pm_value full 0%Qc false)] ++ repeat [] 6) /\
+  exists secs gs agg,
+    run_app exact inits rows = Ok secs /\
+    Forall2 (fun (x : sec_result) og =>
+               match snd (snd x) with
+               | None => exists g, security_gains exact gains0 (gain_rows (fst (snd x))) = Ok g /\ og = Some g
+               | Some _ => og = None
+               end) secs gs /\
+    aggregate exact gains0 (some_gains gs) = Ok agg /\
+    render_aggregate exact full agg = Ok (rp_aggregate rep).
+Proof.
+  unfold render_app. intros H. bind_as H as secs Es.
+  destruct (render_results_spec _ _ _ _ _ H) as [HF (gs & agg & Hg & Ha & Hr)]. split.
+  - intros s st tb Hin.
+    assert (Hex : exists x, sec_table_rel exact full cur x (s, Some st, tb)).
+    { clear -HF Hin. induction HF as [|x0 y0 l tabs Hxy HF IH]; [contradiction|].
+      destruct Hin as [->|Hin]; [exists x0; exact Hxy|auto]. }
+    destruct Hex as [x (_ & Hst & Hrt)]. cbn [fst snd] in Hst. rewrite <- Hst in Hrt.
+    destruct (footer_is_gains _ _ _ _ _ _ Hrt) as (Hl & _ & _ & total & yv & Hv & Hp & Hy).
+    change (years_sorted gains0) with (@nil Z) in *. cbn [map] in Hl.
+    inversion Hy; subst. rewrite plus_minus_exact in Hp. inversion Hp; subst.
+    cbn [snd] in Hl, Hv. split; [exact Hl|]. split; [exact Hv|]. unfold footer_cells. rewrite Hl, Hv. reflexivity.
+  - exists secs, gs, agg. split; [reflexivity|]. split; [exact Hg|]. split; assumption.
 Qed.
